@@ -215,6 +215,9 @@ namespace {
    }
 
    struct Entry;
+   struct Run;
+   // C09: "mutate, then re-read the type" -- defined after Run
+   template<class X> void mutate_pass(Run&, X&);
 
    struct Run {
       Ctx& c;
@@ -460,6 +463,9 @@ namespace {
          result = c.ob.show(x);
          if (repeat) {
             std::cout << "U " << key << ' ' << inst << ' ' << (result == first_result ? "same" : "fresh") << '\n';
+            // the node made by the REPEATED call (a fresh one: nothing else ever reads it) receives every client action its
+            // implementation class allows, one at a time, and reports its type after each
+            if (result != first_result) mutate_pass(*this, const_cast<X&>(x));
             return;
          }
          std::cout << "C " << key << ' ' << inst << " sorts=" << joinc(sorts) << " args=" << join(args) << " => " << result
@@ -471,6 +477,137 @@ namespace {
          for (auto& a : fresh_args) if (a != result) print_closure(c, a, watermark, 0, none);
       }
    };
+
+   // ---------------------------------------------------------------------------------------------- mutate, then re-read the type
+   // C09: a node whose type is fixed by its kind, or was given to the factory, reports THAT type for the rest of its life -- whatever
+   // the client does afterwards to the other client-settable parts of the node.  `mutate_pass` is applied to the result of every
+   // factory entry (the one made by the repeated call).  It discovers, from the result's implementation class alone (requires-
+   // expressions over the names of the public data members and mutators of include/ipr/impl), what a client can do to such a node:
+   // assign each optional link (`init`, `op_impl`, `underlying`, `id`, `lexreg`, `stmt`, ...), the master declaration data, the
+   // specifiers, locations, annotations and attributes, and grow each container (`add_stmt`, `new_handler`, `add_member`, `param`,
+   // `declare_*`, `push_back`, ...).  The actions are applied one at a time in a seeded order and after each one the type is read:
+   //     M <key> <inst> <step> <action> type=<t> want=<w>
+   // `want` is the type before the action (keep); after `typing = T` (the type is GIVEN now) it is T; after an action on the very
+   // sub-node a borrowed type is taken from (`stmt`, `result`) it is `<old>|<type of the new sub-node>` -- one of the two, which
+   // one is the business of the `#linked` rows of the wiring table.
+   struct Mut { std::string name; std::function<void()> act; std::function<std::string()> want; };   // want empty: keep
+
+   template<class X>
+   void mutate_pass(Run& r, X& n)
+   {
+      if constexpr (std::is_base_of_v<ipr::Expr, X> and not std::is_const_v<X>) {
+         Ctx& c = r.c;
+         auto& L = c.lex;
+         auto g = r.gen(4242);
+         auto pick = [&g](auto& pool) -> auto& { return *pool[g() % pool.size()]; };
+         auto T = [&]() -> const ipr::Type& { return pick(c.types); };
+         auto E = [&]() -> const ipr::Expr& { return pick(c.exprs); };
+         auto N = [&]() -> const ipr::Name& { return pick(c.names); };
+         auto typeof_ = [&c](const ipr::Expr& e) { return verif::guard([&] { return c.ob.show(e.type()); }); };
+         auto now = [&] { return typeof_(static_cast<const ipr::Expr&>(n)); };
+         std::vector<Mut> ms;
+         // ---- optional links: the first sort of node the member accepts
+#define LINK(MEMBER, ...) \
+         if constexpr (requires { n.MEMBER = &E(); }) ms.push_back({#MEMBER "=Expr", [&] { n.MEMBER = &E(); }, __VA_ARGS__}); \
+         else if constexpr (requires { n.MEMBER = &pick(c.stmts); }) ms.push_back({#MEMBER "=Stmt", [&] { n.MEMBER = &pick(c.stmts); }, __VA_ARGS__}); \
+         else if constexpr (requires { n.MEMBER = &T(); }) ms.push_back({#MEMBER "=Type", [&] { n.MEMBER = &T(); }, __VA_ARGS__}); \
+         else if constexpr (requires { n.MEMBER = &pick(c.regions); }) ms.push_back({#MEMBER "=Region", [&] { n.MEMBER = &pick(c.regions); }, __VA_ARGS__}); \
+         else if constexpr (requires { n.MEMBER = &N(); }) ms.push_back({#MEMBER "=Name", [&] { n.MEMBER = &N(); }, __VA_ARGS__}); \
+         else if constexpr (requires { n.MEMBER = &pick(c.vars); }) ms.push_back({#MEMBER "=Var", [&] { n.MEMBER = &pick(c.vars); }, __VA_ARGS__});
+#define KEEP std::function<std::string()>{}
+         LINK(op_impl, KEEP) LINK(init, KEEP) LINK(cond, KEEP) LINK(inc, KEEP) LINK(control, KEEP) LINK(var, KEEP) LINK(seq, KEEP)
+         LINK(body, KEEP) LINK(decls, KEEP) LINK(length, KEEP) LINK(lexreg, KEEP) LINK(underlying, KEEP) LINK(id, KEEP)
+         LINK(value_type, KEEP) LINK(decl_constraint, KEEP) LINK(eh, KEEP) LINK(owned_by, KEEP)
+         // the sub-node a borrowed type is taken from (loops, instantiations, where-expressions): the type is the old one or the
+         // type of the new sub-node
+         if constexpr (requires { n.stmt = &E(); }) {
+            auto* sub = &E();
+            ms.push_back({"stmt=Expr", [&n, sub] { n.stmt = sub; }, [=] { return typeof_(*sub); }});
+         }
+         else if constexpr (requires { n.stmt = &pick(c.stmts); }) {
+            auto* sub = &pick(c.stmts);
+            ms.push_back({"stmt=Stmt", [&n, sub] { n.stmt = sub; }, [=] { return typeof_(*sub); }});
+         }
+         if constexpr (requires { n.result = &E(); }) {
+            auto* sub = &E();
+            ms.push_back({"result=Expr", [&n, sub] { n.result = sub; }, [=] { return typeof_(*sub); }});
+         }
+         // the type itself, given after construction: from then on it is the type
+         if constexpr (requires { n.typing = &T(); }) {
+            auto* t = &T();
+            ms.push_back({"typing=Type", [&n, t] { n.typing = t; }, [&c, t] { return "=" + c.ob.show(*t); }});
+         }
+         else if constexpr (requires { n.typing = L.make_closure(pick(c.regions)); }) {
+            auto* k = L.make_closure(pick(c.regions));
+            ms.push_back({"typing=Closure", [&n, k] { n.typing = k; }, [&c, k] { return "=" + c.ob.show(static_cast<const ipr::Type&>(*k)); }});
+         }
+         if constexpr (requires { n.body().typing = &T(); }) {          // a handler borrows from its body
+            auto* t = &T();
+            ms.push_back({"body().typing=Type", [&n, t] { n.body().typing = t; }, [&c, t] { return "=" + c.ob.show(*t); }});
+         }
+         // ---- master declaration data, specifiers, statement data
+         if constexpr (requires { n.decl_data.master_data->home = &pick(c.regions); })
+            ms.push_back({"home=Region", [&] { n.decl_data.master_data->home = &pick(c.regions); }, KEEP});
+         if constexpr (requires { n.decl_data.master_data->langlinkage = &pick(c.linkages); })
+            ms.push_back({"langlinkage=Linkage", [&] { n.decl_data.master_data->langlinkage = &pick(c.linkages); }, KEEP});
+         if constexpr (requires { n.specifiers(ipr::Specifiers{0x42}); }) {
+            ms.push_back({"specifiers(0x42)", [&] { n.specifiers(ipr::Specifiers{0x42}); }, KEEP});
+            ms.push_back({"specifiers(0x204)", [&] { n.specifiers(ipr::Specifiers{0x204}); }, KEEP});
+         }
+         if constexpr (requires { n.specs = ipr::Specifiers{0x30}; }) ms.push_back({"specs=0x30", [&] { n.specs = ipr::Specifiers{0x30}; }, KEEP});
+         if constexpr (requires { n.lam_spec = Lambda_specifiers::Constexpr; }) ms.push_back({"lam_spec=constexpr", [&] { n.lam_spec = Lambda_specifiers::Constexpr; }, KEEP});
+         if constexpr (requires { n.binding_mode = Binding_mode::Reference; }) ms.push_back({"binding_mode=ref", [&] { n.binding_mode = Binding_mode::Reference; }, KEEP});
+         if constexpr (requires { n.src_locus.line = Line_number{77}; }) ms.push_back({"src_locus", [&] { n.src_locus.line = Line_number{77}; n.src_locus.column = Column_number{5}; }, KEEP});
+         if constexpr (requires { n.attrs.push_back(&pick(c.attributes)); }) ms.push_back({"attrs.push_back", [&] { n.attrs.push_back(&pick(c.attributes)); }, KEEP});
+         if constexpr (requires { n.data.template emplace<1>(static_cast<impl::Mapping*>(nullptr)); })
+            ms.push_back({"data=Mapping", [&] { auto* m = L.make_mapping(pick(c.regions), Mapping_level{1}); m->param(N(), T()); n.data.template emplace<1>(m); }, KEEP});
+         if constexpr (requires { n.init = static_cast<impl::Mapping*>(nullptr); } and not requires { n.init = &E(); })
+            ms.push_back({"init=Mapping", [&] { auto* m = L.make_mapping(pick(c.regions), Mapping_level{1}); m->param(N(), T()); n.init = m; }, KEEP});
+         // ---- containers of the node growing
+         if constexpr (requires { n.add_stmt(E()); }) { ms.push_back({"add_stmt", [&] { n.add_stmt(E()); }, KEEP}); ms.push_back({"add_stmt#2", [&] { n.add_stmt(E()); }, KEEP}); }
+         if constexpr (requires { n.new_handler(N(), T()); }) {
+            ms.push_back({"new_handler", [&] { n.new_handler(N(), T()); }, KEEP});
+            ms.push_back({"new_handler#2", [&] { auto* h = n.new_handler(N(), T()); h->body().typing = &T(); h->body().add_stmt(E()); }, KEEP});
+         }
+         if constexpr (requires { n.add_member(N()); }) { ms.push_back({"add_member", [&] { n.add_member(N()); }, KEEP}); ms.push_back({"add_member#2", [&] { n.add_member(N())->init = &E(); }, KEEP}); }
+         if constexpr (requires { n.param(N(), T()); }) { ms.push_back({"param", [&] { n.param(N(), T()); }, KEEP}); ms.push_back({"param#2", [&] { n.param(N(), T()); }, KEEP}); }
+         else if constexpr (requires { n.inputs.add_member(N(), T()); }) ms.push_back({"inputs.add_member", [&] { n.inputs.add_member(N(), T()); }, KEEP});
+         if constexpr (requires { n.formals.add_member(N(), T()); }) ms.push_back({"formals.add_member", [&] { n.formals.add_member(N(), T()); }, KEEP});
+         if constexpr (requires { n.declare_base(T()); }) ms.push_back({"declare_base", [&] { n.declare_base(T()); }, KEEP});
+         if constexpr (requires { n.declare_field(N(), T()); }) {
+            ms.push_back({"declare_field", [&] { n.declare_field(N(), T()); }, KEEP});
+            ms.push_back({"declare_var", [&] { n.declare_var(N(), T()); }, KEEP});
+            ms.push_back({"declare_type", [&] { n.declare_type(N(), L.class_type()); }, KEEP});
+            ms.push_back({"declare_fun", [&] { n.declare_fun(N(), pick(c.functions)); }, KEEP});
+         }
+         if constexpr (requires { n.captures.push_back(pick(c.vars), Binding_mode::Copy); }) ms.push_back({"captures.push_back", [&] { n.captures.push_back(pick(c.vars), Binding_mode::Copy); }, KEEP});
+         if constexpr (requires { n.tokens.push_back(pick(c.strings), Source_location{}, TokenValue{1}, TokenCategory{2}); })
+            ms.push_back({"tokens.push_back", [&] { n.tokens.push_back(pick(c.strings), Source_location{}, TokenValue{1}, TokenCategory{2}); }, KEEP});
+         if constexpr (requires { n.ids.push_back(&pick(c.idents)); }) ms.push_back({"ids.push_back", [&] { n.ids.push_back(&pick(c.idents)); }, KEEP});
+         if constexpr (requires { n.requirements.push_back(c.forms->make_simple_requirement(E())); })
+            ms.push_back({"requirements.push_back", [&] { n.requirements.push_back(c.forms->make_simple_requirement(E())); }, KEEP});
+#undef LINK
+#undef KEEP
+         if (ms.empty()) return;
+         std::shuffle(ms.begin(), ms.end(), g);
+         std::string want = now();
+         std::cout << "M " << r.key << ' ' << r.inst << " 0 built type=" << want << " want=" << want << '\n';
+         int step = 0;
+         for (auto& m : ms) {
+            m.act();
+            if (m.want) {
+               const std::string w = m.want();
+               want = w[0] == '=' ? w.substr(1) : (w == want ? want : want + "|" + w);
+            }
+            const std::string t = now();
+            std::cout << "M " << r.key << ' ' << r.inst << ' ' << ++step << ' ' << m.name << " type=" << t << " want=" << want << '\n';
+            if (want.find('|') != std::string::npos) want = t;       // whichever of the two it is, it stays
+            ++c.stats["mutations followed by a re-read of the type"];
+         }
+         ++c.stats["nodes mutated after construction"];
+      }
+      else { (void) r; (void) n; }
+   }
 
    struct Entry {
       std::string key;
